@@ -163,4 +163,17 @@ def c04(run):
         assumptions=["Prometheus v0.40.1 is the reference", "avg/stddev/stdvar/quantile values are OPAQUE in the spec and compared with the reference by the Go comparator"])
 
 
-RECIPES = {"C02": c02, "C03": c03, "C04": c04}
+def c05(run):
+    gens = [("Gen_Bin", "bin", 1, 1, 6000, 120000, ["BinLaw", "EmitBin"], 1000)]
+    return query_check(
+        run, gens, RESULT,
+        rule=("TLC enumerates 5 label configurations of two metrics (one-to-one, absent labels, many-to-one, duplicated one-side, "
+              "include label already present) x every presence history of the first lhs series over a 4-tick period x pattern lists "
+              "for the other series x 4/12/23 steps; BinLaw (outputs = matched pairs, error iff the one-side is ambiguous at that step) "
+              "is model-checked on every scenario; operator (13), matching labels, cardinality+include, bool, scalar operands and "
+              "operand wrappers are chosen by the seeded hash. distinct_nontrivial = structural scenarios on which PromQLRef agreed with "
+              "Prometheus."),
+        assumptions=["Prometheus v0.40.1 is the reference", "errors are compared by presence only"])
+
+
+RECIPES = {"C02": c02, "C03": c03, "C04": c04, "C05": c05}
